@@ -272,6 +272,11 @@ def check(rep, ctx):
             rep.check(R_X, "unchecked-used" not in detail, construct=fn_, stmt=stmt_at(ctx, site),
                       message=f"the bytes of this read are used without establishing len(result) == requested size ({detail})",
                       instance=f"{site}|{detail}", **where)
+    for o in scan.negative_size_reads(ctx, ["kio.serial.readers"]):
+        rep.check(R_X, False, construct=o["function"], stmt=o["stmt"],
+                  message=f"`{o['stmt']}`: the size is the parameter {o['param']!r}, which is never compared for (in)equality with the length that was "
+                          f"read and never tested for being negative -- read(-2) returns the rest of the stream and `len(got) < -2` is false, so a "
+                          f"length prefix of -2 or lower decodes to everything that follows instead of raising", file=o["file"], line=o["line"])
     # varints, bit level --------------------------------------------------------------------------------
     ratoms = {(a["fn"], a["max_bytes"]): a for a in A.atoms.values() if a and a["kind"] == "varint"}
     watoms = [a for a in A.atoms.values() if a and a["kind"] == "wvarint"]
@@ -297,8 +302,8 @@ def check(rep, ctx):
     for rname, wname, bits in (("read_signed_varint", "write_signed_varint", 32), ("read_signed_varlong", "write_signed_varlong", 64)):
         rd, wd = prims["readers"].get(rname, {}).get("desc"), prims["writers"].get(wname, {}).get("desc")
         if not rd or not wd or rd.get("k") != "scalar" or wd.get("k") != "scalar":
-            rep.check(R_V, False, construct=f"kio.serial.readers:{rname}", stmt="zig-zag pair", message="zig-zag pair not recognised",
-                      file=rfile, line=prims["readers"].get(rname, {}).get("line", 0))
+            # the describer could not describe one of the two: a limit of the analysis, never a verdict
+            limits.append(f"zig-zag pair {rname}/{wname} not recognised: {(rd or {}).get('reason') or (wd or {}).get('reason')}")
             continue
         pr = varint.check_zigzag(varint.from_json(wd["conv"]), varint.from_json(rd["conv"]), bits)
         want_max = 5 if bits == 32 else 10
